@@ -423,6 +423,8 @@ type pod struct {
 	colocate bool // run jobs on the pod's node (pod-crash episodes) instead of their own node
 	jobs     []*jobRec
 	onJob    func(j *jobRec) // called right before the job task starts (arms faults)
+	// partInputs counts job inputs that are ".part" staging files
+	partInputs int
 }
 
 func newPod(root string, k PodKnobs) *pod {
@@ -444,7 +446,8 @@ func (p *pod) boot() {
 		tiers = append(tiers, compaction.NewDailyTier(&compaction.DailyTierConfig{StorageBackend: local, MinAgeHours: 24, MinFiles: p.knobs.DailyMinFiles, Enabled: true, Logger: harnessLogger()}))
 	}
 	mc := &compaction.ManagerConfig{StorageBackend: local, LockManager: compaction.NewLockManager(), MaxConcurrent: p.knobs.MaxConcurrent,
-		MaxFilesPerBatch: p.knobs.MaxFilesPerBatch, TempDirectory: p.tmpDir, Tiers: tiers, Logger: harnessLogger()}
+		MaxFilesPerBatch: p.knobs.MaxFilesPerBatch, TempDirectory: p.tmpDir, Tiers: tiers, Logger: harnessLogger(),
+		Threads: 1, MemoryLimit: "256MB"} // compaction.threads / compaction.memory_limit: one DuckDB thread per job keeps the simulation cheap
 	if p.knobs.NoOrderBy {
 		mc.DefaultSortKeys = []string{}
 	}
@@ -504,6 +507,14 @@ func hookRunJob(ctx context.Context, cfg *compaction.SubprocessJobConfig, logger
 	}
 	j.fsBase, j.stBase = j.node.FSOps(), j.node.Steps()
 	p.jobs = append(p.jobs, j)
+	for _, f := range cfg.Files {
+		if strings.HasSuffix(f, ".part") {
+			// a "<key>.part" staging file left behind by an interrupted
+			// LocalBackend.WriteReader is handed to the job as an input
+			p.partInputs++
+			simrt.Probe("staging_part_file_as_job_input")
+		}
+	}
 	simrt.Event("JOB-START job=%d files=%d batch=%d", j.idx, len(cfg.Files), cfg.BatchNumber)
 	if p.onJob != nil {
 		p.onJob(j)
